@@ -24,22 +24,39 @@ Lemma g_ansi_bright_idx a yes :
         else (if ansi_idx a <? 8 then ansi_idx a else ansi_idx a - 8)).
 Proof. destruct a, yes; reflexivity. Qed.
 
+(* The translation of `to_ansi_color` answers `option (option acolor)` when the translator found a construct that can
+   panic in the body (the `match` on the digit: the outer option is the panic monad) and plain `option acolor` when the
+   body is total (a lookup `TABLE.get(i).copied()` in a private const table).  The lemmas are stated over BOTH: `as_oo`
+   reads either as "panics or answers an optional colour" (the total translation never panics). *)
+Class AsOptOpt (T : Type) := as_oo : T -> option (option acolor).
+#[global] Instance oo_partial : AsOptOpt (option (option acolor)) := fun x => x.
+#[global] Instance oo_total : AsOptOpt (option acolor) := fun x => Some x.
+
+(* what `as_oo x = Some r` says about x itself (so that it can be rewritten with) *)
+Ltac as_oo_inv H :=
+  cbv [as_oo oo_partial oo_total] in H;
+  try (match type of H with Some _ = Some _ => injection H as H end).
+
 Lemma g_to_ansi_color_eq d :
-  exists r, g_to_ansi_color d = Some r /\ option_map ansi_idx r = to_ansi_color d.
+  exists r, as_oo (g_to_ansi_color d) = Some r /\ option_map ansi_idx r = to_ansi_color d.
 Proof.
-  unfold g_to_ansi_color, to_ansi_color.
+  cbv [as_oo oo_partial oo_total]. unfold g_to_ansi_color, to_ansi_color.
   destruct (d <=? 7) eqn:E.
   - apply N.leb_le in E.
     assert (H : d = 0 \/ d = 1 \/ d = 2 \/ d = 3 \/ d = 4 \/ d = 5 \/ d = 6 \/ d = 7) by lia.
     repeat (destruct H as [-> | H]); try subst d; eexists; split; reflexivity.
   - apply N.leb_gt in E.
+    (* past the last entry: every test of a chain of comparisons fails / the table lookup is out of range *)
     repeat match goal with |- context [?a =? ?b] => replace (a =? b) with false by (symmetry; apply N.eqb_neq; lia) end.
+    repeat match goal with
+           | |- context [nth_error ?l ?i] => rewrite (proj2 (nth_error_None l i)) by (cbn [length]; lia)
+           end.
     eexists; split; reflexivity.
 Qed.
 
 Lemma g_to_ansi_cases d :
-  (exists u, g_to_ansi_color d = Some (Some u) /\ to_ansi_color d = Some (ansi_idx u) /\ ansi_idx u <= 7) \/
-  (g_to_ansi_color d = Some None /\ to_ansi_color d = None).
+  (exists u, as_oo (g_to_ansi_color d) = Some (Some u) /\ to_ansi_color d = Some (ansi_idx u) /\ ansi_idx u <= 7) \/
+  (as_oo (g_to_ansi_color d) = Some None /\ to_ansi_color d = None).
 Proof.
   destruct (g_to_ansi_color_eq d) as [r [E1 E2]]. destruct r as [u|]; cbn [option_map] in E2.
   - left. exists u. repeat split; auto.
@@ -101,7 +118,8 @@ Ltac leaf :=
       match goal with
       | |- context [g_to_ansi_color ?n] =>
           let u := fresh "u" in let L := fresh "L" in
-          destruct (g_to_ansi_cases n) as [[u [-> [-> L]]] | [-> ->]]; [|reflexivity];
+          let E := fresh "E" in
+          destruct (g_to_ansi_cases n) as [[u [E [-> L]]] | [E ->]]; as_oo_inv E; rewrite E; [|reflexivity];
           first [ reflexivity
                 | let b := fresh "b" in let Eb := fresh "Eb" in
                   destruct (g_ansi_bright_true u L) as [b [-> Eb]]; rewrite Eb; reflexivity ]
@@ -134,9 +152,11 @@ Lemma g_cap_csi_dispatch_eq cap ps ints ign a :
   g_cap_csi_dispatch cap ps ints ign a = capture_event cap (ECsi ps ints ign a).
 Proof.
   unfold g_cap_csi_dispatch, capture_event.
-  destruct ign; [reflexivity|]. destruct (negb (a =? 109)); [reflexivity|].
-  unfold is_empty at 1. destruct ints; cbn [negb]; [|reflexivity].
-  cbv zeta. unfold sgr_dispatch.
+  (* the guards at the head (three early returns, one merged test, a `let` for a part of it: any combination of
+     `ignore`, `action == b'm'`, `intermediates.is_empty()`): decided on both sides by the three facts themselves *)
+  destruct ign, (a =? 109), ints as [|i0 ints]; cbv zeta; cbn [negb andb orb is_empty];
+    try (match goal with |- Some ?x = Some ?x => reflexivity end).
+  unfold sgr_dispatch.
   match goal with |- context [for_list0 ?F ps ?i] => rewrite (params_loop_for F) end.
   - destruct (params_loop (mkD (c_style cap) WNormal None None TFg) ps) as [[s1 w1 r1 g1 t1]|]; cbn [option_map dtup d_style]; [|reflexivity].
     destruct cap as [cs cp cr]. unfold set_c_ready, set_c_style, is_empty. cbn [c_style c_printable c_ready].
